@@ -204,10 +204,12 @@ func runC02(c *engine.Ctx) {
 	c.Rule("R1", "write frame of the five Rewrite hooks: only X-Forwarded-* list copies / SetXForwarded, URL.Scheme (constant), URL.Host, Host under a non-empty rewrite setting, and Header.Set from the configured request headers")
 	var hooks []*ssa.Function
 	for _, f := range p.RepoFuncs() {
-		if f.Parent() == nil || len(f.Params) != 1 {
+		// a Rewrite hook: a closure, or a method used as the hook (func(*httputil.ProxyRequest) after the receiver)
+		up := userParams(f)
+		if len(up) != 1 || (f.Parent() == nil && f.Signature.Recv() == nil) {
 			continue
 		}
-		if n := engine.NamedOf(f.Params[0].Type()); n != nil && n.Obj().Name() == "ProxyRequest" {
+		if n := engine.NamedOf(up[0].Type()); n != nil && n.Obj().Name() == "ProxyRequest" {
 			hooks = append(hooks, f)
 		}
 	}
@@ -232,7 +234,7 @@ func runC02(c *engine.Ctx) {
 	n := 0
 	if ctor != nil {
 		for _, f := range allAnon(ctor) {
-			if len(f.Params) != 1 || !engine.IsNamed(f.Params[0].Type(), "net/http", "Response") {
+			if up := userParams(f); len(up) != 1 || !engine.IsNamed(up[0].Type(), "net/http", "Response") {
 				continue
 			}
 			n++
@@ -289,7 +291,7 @@ func runC02(c *engine.Ctx) {
 	n = 0
 	if ctor != nil {
 		for _, f := range allAnon(ctor) {
-			if len(f.Params) != 3 || !types.Identical(f.Params[2].Type(), types.Universe.Lookup("error").Type()) {
+			if up := userParams(f); len(up) != 3 || !types.Identical(up[2].Type(), types.Universe.Lookup("error").Type()) {
 				continue
 			}
 			n++
